@@ -125,6 +125,13 @@ CHECKS.update({
    note="Sequentially consistent interleavings at hook granularity only; loom/shuttle cannot intercept std::sync inside mimium-lang and do not finish on ~7000 lock operations per job, hence the hand-rolled scheduler. Unsynchronised memory effects (the transmuted &str from Symbol::as_str vs. reallocation of the interner buffer) are outside what a cooperative scheduler can observe and no sanitizer pass is included. Point numbering jitters slightly between executions (HashMap seeds).",
    design="4/C19"),
 })
+CHECKS.update({
+ "C18": dict(
+   technique="bounded-exhaustive enumeration of family programs through emit_rust, rustc and execution, differential against the VM (shape E)",
+   text="Every program of the tier's list (expressions thinned so that every operator and builtin occurs, and all state-layout, closure, aggregate and task programs below the bound) that the VM runs is passed to emit_rust; what is not refused is compiled with rustc (24 modules per invocation, build failures bisected) and run with a host whose `now` is the sample index; outputs must equal the VM's bit for bit.",
+   note="rustc cost keeps this bound the smallest of all checks. The generated program's host supplies the math builtins the transpiler delegates to call_ext.",
+   design="4/C18"),
+})
 NOT_YET = {}
 
 def main():
